@@ -1,12 +1,15 @@
 #!/bin/bash
 # Build the Coq development (full .vo build), extract the model, build the OCaml runner.
 set -e
-cd /verif/coq
+root="$(cd "$(dirname "$0")/.." && pwd)"
+cd "$root/coq"
 [ -f Makefile ] || coq_makefile -f _CoqProject -o Makefile >/dev/null 2>&1
+[ Makefile -nt _CoqProject ] || coq_makefile -f _CoqProject -o Makefile >/dev/null 2>&1
 timeout 3000 make -j16 2>&1 | grep -v -E "^(Warning|COQDEP|COQC|\*\*\* Warning)" || true
 test -f Model/Exec.vo
-mkdir -p /verif/.cache/ocaml
-if [ ! -f /verif/.cache/ocaml/modelrun ] || [ Model/Exec.vo -nt /verif/.cache/ocaml/modelrun ] || [ ../ocaml/driver.ml -nt /verif/.cache/ocaml/modelrun ]; then
-  (cd /verif/.cache/ocaml && coqc -Q /verif/coq/Model Model /verif/coq/Extract.v >/dev/null 2>&1 && rm -f /verif/coq/Extract.vo /verif/coq/Extract.glob /verif/coq/.Extract.aux
-   cp /verif/ocaml/driver.ml . && ocamlfind ocamlopt -w -a model.mli model.ml driver.ml -o modelrun)
+mkdir -p "$root/.cache/ocaml"
+run="$root/.cache/ocaml/modelrun"
+if [ ! -f "$run" ] || [ Model/Exec.vo -nt "$run" ] || [ ../ocaml/driver.ml -nt "$run" ]; then
+  (cd "$root/.cache/ocaml" && coqc -Q "$root/coq/Model" Model "$root/coq/Extract.v" >/dev/null 2>&1 && rm -f "$root/coq/Extract.vo" "$root/coq/Extract.glob" "$root/coq/.Extract.aux"
+   cp "$root/ocaml/driver.ml" . && ocamlfind ocamlopt -w -a model.mli model.ml driver.ml -o modelrun)
 fi
